@@ -15,16 +15,19 @@ StartupClasses == {"pool_md5", "pool_md5_authquery", "pool_trust", "unknown_db",
 \* is shorter than a full answer (nothing, the literal "md5", a prefix of the right answer, the right answer without NUL)
 ResponseClasses == {"correct", "wrong_password", "replayed", "other_users_password", "truncated", "empty",
                     "wrong_message_type", "none", "zero_length_body", "constant_md5", "correct_prefix",
-                    "correct_without_nul", "correct_with_suffix"}
+                    "correct_without_nul", "correct_with_suffix", "previous_password"}
+\* previous_password: a correct answer computed from the password that was configured before the last RELOAD changed it
+\* (the secret in force is the one of the configuration in effect - C14 says which that is)
 CONSTANT Dev
 \* Dev: "any_password"   - the comparison is skipped / inverted
 \*      "salt_ignored"   - a correct answer to another connection's salt is accepted
 \*      "admin_via_pool" - the admin database accepts a pool user's credentials
 \*      "ok_before_check" - AuthenticationOk is sent before the response is verified
+\*      "stale_secret"   - a password changed by RELOAD is still checked against its old value
 
-VARIABLES phase, startup, authok, admitted, leaked
-vars == <<phase, startup, authok, admitted, leaked>>
-Init == phase = "start" /\ startup = "none" /\ authok = FALSE /\ admitted = FALSE /\ leaked = FALSE
+VARIABLES phase, startup, authok, admitted, leaked, resp
+vars == <<phase, startup, authok, admitted, leaked, resp>>
+Init == phase = "start" /\ startup = "none" /\ authok = FALSE /\ admitted = FALSE /\ leaked = FALSE /\ resp = "none"
 
 NeedsPassword(s) == s \in {"pool_md5", "pool_md5_authquery", "admin_ok_user", "admin_wrong_user"}
 Configured(s) == s \in {"pool_md5", "pool_md5_authquery", "pool_trust", "admin_ok_user", "admin_wrong_user"}
@@ -39,7 +42,7 @@ Startup(s) ==
   /\ IF ~Configured(s) THEN phase' = "closed" /\ UNCHANGED <<authok, admitted>>
      ELSE IF NeedsPassword(s) THEN phase' = "await_pw" /\ authok' = ("ok_before_check" \in Dev) /\ UNCHANGED admitted
      ELSE phase' = "authed" /\ authok' = TRUE /\ admitted' = TRUE
-  /\ UNCHANGED leaked
+  /\ UNCHANGED <<leaked, resp>>
 
 Accepts(s, r) ==
   \/ MayAdmit(s, r)
@@ -47,17 +50,19 @@ Accepts(s, r) ==
   \/ "prefix_accepted" \in Dev /\ r \in {"zero_length_body", "constant_md5", "correct_prefix", "correct_without_nul"}
   \/ "salt_ignored" \in Dev /\ r = "replayed" /\ s # "admin_wrong_user"
   \/ "admin_via_pool" \in Dev /\ s = "admin_wrong_user" /\ r = "correct"
+  \/ "stale_secret" \in Dev /\ s = "pool_md5" /\ r = "previous_password"
 
 Respond(r) ==
   /\ phase = "await_pw"
   /\ IF Accepts(startup, r) THEN phase' = "authed" /\ authok' = TRUE /\ admitted' = TRUE
      ELSE phase' = "closed" /\ UNCHANGED <<authok, admitted>>
+  /\ resp' = r
   /\ UNCHANGED <<startup, leaked>>
 
 \* a query sent by the client: reaches a server only when authenticated
 Query == /\ phase # "start"
          /\ leaked' = (leaked \/ (phase = "authed" /\ FALSE))
-         /\ UNCHANGED <<phase, startup, authok, admitted>>
+         /\ UNCHANGED <<phase, startup, authok, admitted, resp>>
 
 Next == (\E s \in StartupClasses : Startup(s)) \/ (\E r \in ResponseClasses : Respond(r))
 Spec == Init /\ [][Next]_vars
@@ -65,4 +70,5 @@ Spec == Init /\ [][Next]_vars
 \* the last response given is remembered through phase; the invariants quantify over reachable states
 NoOkWithoutCredentials == authok => (startup = "pool_trust" \/ phase = "authed")
 OnlyValidAdmitted == admitted => startup \in {"pool_trust", "pool_md5", "pool_md5_authquery", "admin_ok_user"}
+AdmittedOnlyByRule == admitted => MayAdmit(startup, resp)
 =============================================================================
